@@ -1500,7 +1500,9 @@ DOMStringHelper::NumberToCharacters(
             theZeroString,
             sizeof(theZeroString) / sizeof(theZeroString[0]) - 1);
     }
-    else if (static_cast<XMLInt64>(theValue) == theValue)
+    else if (theValue >= -9223372036854775808.0 &&
+             theValue < 9223372036854775808.0 &&
+             static_cast<XMLInt64>(theValue) == theValue)
     {
         NumberToCharacters(static_cast<XMLInt64>(theValue), formatterListener, function);
     }
@@ -1812,7 +1814,9 @@ NumberToDOMString(
             theZeroString,
             sizeof(theZeroString) / sizeof(theZeroString[0]) - 1);
     }
-    else if (static_cast<XMLInt64>(theValue) == theValue)
+    else if (theValue >= -9223372036854775808.0 &&
+             theValue < 9223372036854775808.0 &&
+             static_cast<XMLInt64>(theValue) == theValue)
     {
         NumberToDOMString(static_cast<XMLInt64>(theValue), theResult);
     }
